@@ -128,6 +128,32 @@ pub fn run_c15_scheme<S: Sch>(tier: Tier, rep: &mut Report) {
             }
         }
     }
+    // records at the same seq and signer whose pairs differ only in WHERE key and value are split
+    // (key "a" -> 82 63 01   versus   key "a" 82 63 -> 01), and in which key holds which value
+    {
+        use bytes::Bytes;
+        let mk = |pairs: &[(&[u8], &[u8])]| -> Option<Enr<S::K>> {
+            let mut b = Enr::<S::K>::builder();
+            for (kk, v) in pairs {
+                b.add_value_rlp(kk, Bytes::copy_from_slice(v));
+            }
+            b.build(&k[0]).ok()
+        };
+        let fam: Vec<(&str, Vec<(&[u8], &[u8])>)> = vec![
+            ("split-1", vec![(b"a", &[0x82, 0x63, 0x01])]),
+            ("split-2", vec![(&[b'a', 0x82, 0x63], &[0x01])]),
+            ("split-3", vec![(b"a", &[0x81, 0x82]), (b"c", &[0x01])]),
+            ("swap-1", vec![(b"p", &[0x01]), (b"q", &[0x02])]),
+            ("swap-2", vec![(b"p", &[0x02]), (b"q", &[0x01])]),
+            ("join-1", vec![(b"ab", &[0x63])]),
+            ("join-2", vec![(b"a", &[0x62]), (b"c", &[0x80])]),
+        ];
+        for (l, pairs) in fam {
+            if let Some(e) = mk(&pairs) {
+                pool.push(member(e, format!("builder:{l}")));
+            }
+        }
+    }
     let n = pool.len();
     let viols: Vec<Viol> = (0..n)
         .into_par_iter()
